@@ -8,7 +8,7 @@ import time
 from .common import bind_repo
 
 MODULES = {
-    "C01": "c01", "C02": "c01", "C03": "c03", "C12": "c03", "C18": "c18", "C09": "c09", "C10": "c09", "C11": "c11", "C08": "c08", "C16": "c16", "C17": "c17", "C04": "c04", "C05": "c04", "C06": "c04",
+    "C01": "c01", "C02": "c01", "C03": "c03", "C12": "c03", "C18": "c18", "C09": "c09", "C10": "c09", "C11": "c11", "C08": "c08", "C16": "c16", "C17": "c17", "C13": "c14", "C14": "c14", "C19": "c19", "C20": "c20", "C15": "c15", "C07": "c07", "C04": "c04", "C05": "c04", "C06": "c04",
 }
 
 
